@@ -371,7 +371,7 @@ pub fn run(cfg: &Cfg) -> Report {
     let mut report = Report::new(cfg);
     let seed = cfg.seed;
     let mut bases: Vec<MSym> = vec![];
-    for s in gen::connected_sets_upto(2, cfg.tier.pick(5, 6)) {
+    for s in gen::connected_sets_upto(2, cfg.tier.pick(6, 7)) {
         if gen::adjacent_orbits(&s).len() <= 5 {
             gen::for_all_branchings(&s, &|_, _| vec![1, 2, 3], &mut |x| bases.push(x.clone()));
         }
@@ -381,7 +381,7 @@ pub fn run(cfg: &Cfg) -> Report {
         if gen::adjacent_orbits(&s).len() <= 3 {
             gen::for_all_branchings(&s, &|_, _| vec![1, 2, 3, 4], &mut |x| bases.push(x.clone()));
         } else {
-            for _ in 0..cfg.tier.pick(20, 40) {
+            for _ in 0..cfg.tier.pick(40, 80) {
                 let mut x = s.clone();
                 for (i, _, members, _) in gen::adjacent_orbits(&s) {
                     let v = *rng0.pick(&[1usize, 1, 2, 3, 4]);
@@ -444,7 +444,7 @@ pub fn run(cfg: &Cfg) -> Report {
 
     // many multi-generator, long-word subgroup covers of the larger finite groups (coincidence cascades)
     let heavy = ["<1.1:1:1,1,1:3,5>", "<1.1:1 3:1,1,1,1:3,3,3>", "<1.1:1 3:1,1,1,1:4,3,3>", "<1.1:2:2,1 2,1 2:2,5 5>"];
-    let per = cfg.tier.pick(60, 600);
+    let per = cfg.tier.pick(150, 600);
     let ctx = crate::monitor::par_range(cfg, heavy.len() * 60, |ctx, k| {
         let b = msym_from_text(heavy[k % heavy.len()]).unwrap();
         let mut rng = Rng::stream(seed, 0x05_a000 + k as u64);
